@@ -170,37 +170,17 @@ def groupBy [BEq κ] (key : α → Nat → κ) (arr : Arr α) : List (Ev (List (
 
 end Ro.MultiB.Spec
 
-/-! ## Known deviations of the pinned tree: the classes of inputs the `…_partial` theorems exclude
-    (each with a witness theorem in RoProps/C05b.lean and a replayed entry in known_findings.jsonl) -/
+/-! ## Known deviations of the current tree: the classes of inputs the `…_partial` theorems exclude
+    (each with a witness theorem in RoProps/C05b.lean and a replayed entry in known_findings.jsonl).
+    The classes of the deviations repaired by the fix commits b6f7afa (Zip), 655488e (ZipAll), 808ed47
+    (ConcatAll) and 85e48d9 (GroupBy error) are gone: those theorems are now stated in full. -/
 namespace Ro.MultiB.Known
 open Ro.MultiB Ro.MultiB.Spec
 variable {α : Type}
 
-/-- Zip: the first source to finish completes while values of its own are still queued (the
-    complete callback then cancels every source although tuples are still owed) -/
-def zipCompleteUnsub (n : Nat) (past : Arr α) (k : Nat) : Arr α → Bool
-  | [] => false
-  | (i, .next v) :: rest =>
-    zipCompleteUnsub n (past ++ [(i, .next v)]) (if rowReady n k (past ++ [(i, .next v)]) then k + 1 else k) rest
-  | (_, .error _) :: _ => false
-  | (i, .complete) :: _ => decide (k < (valsOf i past).length)
-
-/-- Concat: an inner source errors (the synchronous outer source then still subscribes the remaining
-    inner sources, which are unsubscribed at once) -/
-def concatInnerError (n : Nat) (arr : Arr α) : Bool :=
-  (concatFrom n .never 0 arr).any (fun x => match x with | .error _ => true | _ => false)
-
-/-- ZipAll: the outer source completes while there are inner sources (the destination is completed
-    at that moment) -/
-def zipAllOuterCompletes (n : Nat) (outer : OuterEnd) : Bool := decide (outer = .complete) && decide (0 < n)
-
 /-- GroupBy: a recorder may subscribe to its group after the source has ended (the unicast subject
-    then hands out only the terminal: the queued values are lost) -/
+    then hands out only the terminal: the queued values are lost; pinned by an Example test of the
+    unicast subject, so not repaired) -/
 def groupByLate (delay : Nat) (arr : Arr α) : Bool := decide (2 ≤ delay) && (stop arr).isSome
-
-/-- GroupBy: the source errors after groups have been emitted (they are completed by the teardown
-    before the error callback reaches them) -/
-def groupByErrorCompletesGroups (arr : Arr α) : Bool :=
-  (match stop arr with | some (.error _) => true | _ => false) && !(valsOf 0 (body arr)).isEmpty
 
 end Ro.MultiB.Known
